@@ -7,7 +7,7 @@ bytecodes, of the `Reg`/`Op` constants, `baseReg`, `fixedArg` and the array leng
 which is regenerated from the compiled package on every run.  The interpreter below is hand-written and tied to the real
 `x86asm.Decode` by the correspondence run of `checks/C16.py` (same byte strings → same `(err, Len, Op, PCRel, PCRelOff)`).
 
-What is kept of the Go state: everything that can influence `err`, `Len`, `Op`, `PCRel`, `PCRelOff` or a run-time panic
+What is kept of the Go state: everything that can influence `err`, `Len`, `Op`, `Opcode`, `PCRel`, `PCRelOff` or a run-time panic
 (slice/array index).  `inst.Prefix[i]` flags are kept only where the code reads them back (the byte of the last REP/REPN and
 of the last FS/GS prefix, the Implicit flag on the last REP prefix, the two VEX payload bytes); `inst.Args` is reduced to
 `narg` (index-out-of-range on `inst.Args[narg]`) and to `Args[0]` as a register number (read by the NOP fix-up, decode.go:1244).
@@ -36,6 +36,7 @@ structure Res where
   op : Nat := 0
   pcrel : Nat := 0
   pcreloff : Nat := 0
+  opcode : Nat := 0   -- inst.Opcode (uint32): opcode bytes incl. ModRM/SIB, left aligned; 0 on every `Inst{Len: …}` return
   deriving DecidableEq, Repr
 
 def panicRes : Res := { err := .panic, len := 0 }
@@ -469,7 +470,7 @@ def finish (src : Bytes) (P : Pfx) (s : St) : Res :=
         let o := if s.arg0 = regRAX ∨ s.arg0 = regEAX ∨ s.arg0 = regAX then opNOP else s.op
         if P.rep = 0xF3 ∧ !s.repImplicit then opPAUSE else o
       else s.op
-    { err := .ok, len := s.pos, op := op, pcrel := s.pcrel, pcreloff := s.pcreloff }
+    { err := .ok, len := s.pos, op := op, pcrel := s.pcrel, pcreloff := s.pcreloff, opcode := s.opcode }
 
 /-- the `Decode:` loop with explicit fuel (the table program is acyclic; `Props/C16.lean` proves fuel 16 is never exhausted) -/
 def run (src : Bytes) (P : Pfx) : Nat → Nat → St → Res
